@@ -53,9 +53,28 @@ def _skip_conditions(f, loop):
     """ordered `if (c) continue;` conditions at the top level of a loop body (alpha-normalised)."""
     body = f.nodes[loop]["body"]
     out = []
-    for s in f.ch(body):
+
+    def neg(leaf):
+        """alpha text of the negation of a leaf condition: !x -> x, a == b -> a != b, otherwise (!leaf)"""
+        leaf = f.strip(leaf)
+        n = f.nodes[leaf]
+        if n["k"] == "UnaryOperator" and n.get("op") == "!":
+            return f.alpha(f.strip(n["ch"][0]))[0]
+        if n["k"] == "BinaryOperator" and n.get("op") in ("==", "!="):
+            t = f.alpha(leaf)[0]
+            a, b = (" == ", " != ") if n["op"] == "==" else (" != ", " == ")
+            return t.replace(a, b, 1)
+        return "(!%s)" % f.alpha(leaf)[0]
+    kids = f.ch(body) if f.k(body) == "CompoundStmt" else [body]
+    for pos_, s in enumerate(kids):
         if f.k(s) == "IfStmt" and any(f.k(x) == "ContinueStmt" for x in f.walk(f.nodes[s]["then"])):
-            out.append(f.alpha(f.nodes[s]["cond"])[0])
+            # `if (a || b) continue;` skips when a, and when b
+            conn, leaves = core.cond_leaves(f, f.nodes[s]["cond"])
+            out += [f.alpha(x)[0] for x in leaves] if conn == "||" else [f.alpha(f.nodes[s]["cond"])[0]]
+        elif f.k(s) == "IfStmt" and pos_ == len(kids) - 1 and f.nodes[s].get("else", -1) < 0:
+            # `if (a && b) <action>` as the last statement skips when !a, and when !b
+            conn, leaves = core.cond_leaves(f, f.nodes[s]["cond"])
+            out += [neg(x) for x in leaves] if conn in ("&&", "leaf") else ["(!%s)" % f.alpha(f.nodes[s]["cond"])[0]]
         elif out and f.k(s) not in ("IfStmt",):
             # statements between skips belong to the shared prefix (error = 0; read card); after the last skip the action starts
             continue
@@ -577,6 +596,19 @@ def km4(P, C):
                 last = [z for z in f.walk() if ts.assign_parts(f, z) and f.alpha(z)[0].replace(" ", "") == "(v0[naux]=v1)" and f.alpha(z)[1][0] == order[0]]
                 ok = ok and len(last) == 1
                 det = "new[j] = aux[j] for every j, new entry into slot naux: %s" % ok
+        if not moves and bulk and name == "remove_key":
+            # the bulk form: the entries before the removed one go to the same slots, the ones after it one slot down —
+            # copy(aux, aux+i, new) and copy(aux+i+1, aux+naux, new+i) with one index variable i and one target array
+            sig = sorted((f.alpha(y)[0].replace(" ", ""), tuple(f.alpha(y)[1])) for y in bulk)
+            want = sorted(["copy(((aux+v0)+1),(aux+naux),(v1+v0))", "copy(aux,(aux+v0),v1)"])
+            ok = len(bulk) == 2 and [t for t, _ in sig] == want and sig[0][1] == sig[1][1]
+            det = "two bulk copies: [0, i) to the same slots and (i, naux) one slot down, same index and target: %s" % ok
+        elif not moves and bulk and name == "write_key":
+            sig = [(f.alpha(y)[0].replace(" ", ""), f.alpha(y)[1]) for y in bulk]
+            ok = len(bulk) == 1 and sig[0][0] == "copy(aux,(aux+naux),v0)"
+            last = [z for z in f.walk() if ts.assign_parts(f, z) and f.alpha(z)[0].replace(" ", "") == "(v0[naux]=v1)" and ok and f.alpha(z)[1][0] == sig[0][1][0]]
+            ok = ok and len(last) == 1
+            det = "one bulk copy of all entries to the same slots, new entry into slot naux: %s" % ok
         C.ob("KM-4", name, "order-preserving-copy", ok, f.loc(moves[0]) if moves else f.where(), det)
 
 
